@@ -131,17 +131,27 @@ pub fn run(seed: u64, count: usize, _thorough: bool, out: &mut Out) {
         // wrapped distance inside an orthogonal cell
         let cell_edges = (rng.range(8, 160) as f64 / 8.0, rng.range(8, 160) as f64 / 8.0, rng.range(8, 160) as f64 / 8.0);
         let cell = UnitCell::new(cell_edges.0, cell_edges.1, cell_edges.2, 90.0, 90.0, 90.0);
-        for _ in 0..4 {
+        for k in 0..8 {
             let inside = |r: &mut Rng, e: f64| (r.below((e * 8.0) as usize) as f64) / 8.0;
             let pa = (inside(&mut rng, cell_edges.0), inside(&mut rng, cell_edges.1), inside(&mut rng, cell_edges.2));
-            let pb = (inside(&mut rng, cell_edges.0), inside(&mut rng, cell_edges.1), inside(&mut rng, cell_edges.2));
-            let a = Atom::new(false, 1, "", "C", pa.0, pa.1, pa.2, 1.0, 0.0, "C", 0).expect("atom");
-            let b2 = Atom::new(false, 2, "", "ZN", pb.0, pb.1, pb.2, 1.0, 0.0, "ZN", 0).expect("atom");
+            let mut pb = (inside(&mut rng, cell_edges.0), inside(&mut rng, cell_edges.1), inside(&mut rng, cell_edges.2));
+            if k >= 4 && cell_edges.0 >= 12.0 {
+                // aimed: the image across the x face at a distance between 2 and 6 (where the sums of the radii columns lie)
+                let off = 2.0 + rng.below(33) as f64 / 8.0;
+                pb = ((pa.0 + cell_edges.0 - off) % cell_edges.0, pa.1, pa.2);
+            }
+            // elements with radii in every column, with a radius missing in one column only (Pm, Bk), and light / heavy ones
+            let ea = *rng.pick(&["C", "ZN", "HE", "K", "PM", "BK", "H", "O"]);
+            let eb = *rng.pick(&["C", "ZN", "HE", "K", "PM", "BK", "H", "O"]);
+            let a = Atom::new(false, 1, "", ea, pa.0, pa.1, pa.2, 1.0, 0.0, ea, 0).expect("atom");
+            let b2 = Atom::new(false, 2, "", eb, pb.0, pb.1, pb.2, 1.0, 0.0, eb, 0).expect("atom");
             let d = a.distance_wrapping(&b2, &cell);
             let args = vec![pt_sx(pa), pt_sx(pb), pt_sx(cell_edges), f(d)];
             out.case("C14", call("wrapdist", args), y("ok"), "prop:wrapped-distance", true);
-            let args = vec![y("bound"), l(vec![z(6)]), l(vec![z(30)]), f(d)];
-            out.case("C14", call("overlaps", args), opt(a.overlaps_bound_wrapping(&b2, &cell), b), "prop:overlaps-wrapping", true);
+            for (which, r) in [("bound", a.overlaps_bound_wrapping(&b2, &cell)), ("unbound", a.overlaps_wrapping(&b2, &cell))] {
+                let args = vec![y(which), opt(a.element(), |e| z(e.atomic_number() as i128)), opt(b2.element(), |e| z(e.atomic_number() as i128)), f(d)];
+                out.case("C14", call("overlaps", args), opt(r, b), "prop:overlaps-wrapping", true);
+            }
         }
     }
 }
